@@ -58,6 +58,10 @@ class FalsyObj(list):
 
 class Task(object):
     def __init__(self, tid, kind, owner):
+        # "ret.p" / "raise.p": the task is a functools.partial object; "ret.i" / "raise.i": an instance with __call__
+        # (callables without __name__); the outcome kinds stay 'ret' / 'raise'
+        kind, _, shape = kind.partition(".")
+        self.shape = shape
         self.tid, self.kind, self.owner = tid, kind, owner
         self.execs = 0
         self.exited = False
@@ -155,6 +159,14 @@ class PoolHarness(object):
                 task.exit_step = sched.S.nsteps
 
         body.__name__ = "task_" + task.tid
+        if task.shape == "p":
+            import functools
+            return functools.partial(body)
+        if task.shape == "i":
+            class CallableTask(object):
+                def __call__(self, *a, **k):
+                    return body(*a, **k)
+            return CallableTask()
         return body
 
     # -- operations ----------------------------------------------------------------
@@ -520,11 +532,14 @@ CURATED.update({
     "S6-chain4": ([("start",), ("chain", 0, 4), ("chain", 1, 4), ("chain", 2, 4), ("chain", 3, 4), ("result", "c0", BIG)], None),
     "S7-idle-cycles": ([("start",)] + [x for i in range(4) for x in (("enq", "ret"), ("result", "c%d" % i, BIG), ("sleep", 61))] + [("enq", "ret"), ("result", "c4", BIG)], None),
     "S8-backlog-behind-gate": ([("start",), ("enq", "gated")] + _many(8) + [("open", "c0"), ("join", None), ("stop",)], None),
+    "S10-callable-kinds": ([("start",), ("enq", "raise.p"), ("enq", "ret.p"), ("enq", "raise.i"), ("enq", "ret.i"), ("result", "c0", BIG), ("result", "c1", BIG),
+                            ("result", "c2", BIG), ("result", "c3", BIG), ("join", None), ("stop",)], None),
+    "S11-failing-partial-then-chain": ([("start",), ("enq", "raise.p"), ("result", "c0", BIG), ("chain", 0, 2), ("chain", 1, 2), ("result", "c1", BIG)], None),
     "S9-restart-with-backlog": ([("start",), ("enq", "gated"), ("enq", "ret"), ("enq", "ret"), ("spawn",), ("stop",), ("joinsub",), ("start",)] + _many(4)
                                 + [("join", None), ("stop",)], [("open", "c0")]),
 })
 SCALE = ["S1-twelve-tasks", "S2-ten-prequeued", "S3-four-restarts", "S4-two-submitters-five-each", "S5-bounded-queue-six", "S6-chain4", "S7-idle-cycles",
-         "S8-backlog-behind-gate", "S9-restart-with-backlog"]
+         "S8-backlog-behind-gate", "S9-restart-with-backlog", "S10-callable-kinds", "S11-failing-partial-then-chain"]
 # (pool size, deepest ladder level): with more than 3 workers even the preemption-free level (free choices when a thread blocks) has
 # 10^5 schedules for these programs, so larger pools appear only in the 4-chain program
 SCALE_SIZES = {"quick": [((1, 0), 1), ((2, 1), 1), ((3, 1), 0)], "thorough": [((1, 0), 3), ((1, 1), 3), ((2, 0), 2), ((2, 1), 2), ((3, 0), 1), ((3, 1), 1), ((3, 3), 1)]}
